@@ -1,3 +1,169 @@
-import Kio.Model.Prim
+import Kio.Proofs.Prim
+import Kio.Proofs.CodecBase
+import Kio.Proofs.SpecEq
+import Kio.Proofs.Float
+/-!
+# C11 — primitive readers and writers implement the Kafka primitive encodings
+
+Per function family: reader ∘ writer = id with an arbitrary suffix, the bytes are the `Spec`
+encoding, and out-of-domain values raise.  (The per-primitive lemmas live in `Kio/Proofs/Prim`;
+`prim_roundtrip` covers every (Kafka type, flexible, optional) entry of the dispatch tables.)
+-/
 namespace Kio.C11
+open Kio
+
+/-! ## fixed-width integers (all eight `read_*int*` / `write_*int*`, lengths, error codes) -/
+
+theorem natBE_length (w n : Nat) : (natBE w n).length = w := Kio.natBE_length w n
+theorem beNat_natBE (w n : Nat) (h : n < 256 ^ w) : beNat (natBE w n) = n := Kio.beNat_natBE w n h
+theorem natBE_beNat (bs : Bytes) : natBE bs.length (beNat bs) = bs := Kio.natBE_beNat bs
+
+/-- `struct.unpack(struct.pack(v) ++ rest) = (v, rest)` for every width and signedness -/
+theorem int_roundtrip (w : Nat) (hw : 0 < w) (signed : Bool) (v : Int) (bs rest : Bytes)
+    (h : encIntN w signed v = .ok bs) : decIntN w signed (bs ++ rest) = .ok (v, rest) :=
+  Kio.int_roundtrip w hw signed v bs rest h
+
+/-- the bytes are two's-complement big-endian as the specification states them -/
+theorem int_bytes_spec (w : Nat) (signed : Bool) (v : Int) :
+    (encIntN w signed v).toOption = Spec.intBE w signed v := Kio.encIntN_eq_spec w signed v
+
+/-- outside the type's range the writer raises `struct.error` (no wrapped bytes) -/
+theorem int_out_of_domain (w : Nat) (signed : Bool) (v : Int)
+    (h : ¬ (intLo w signed ≤ v ∧ v ≤ intHi w signed)) : encIntN w signed v = .error .structError :=
+  Kio.int_out_of_domain w signed v h
+
+/-! ## varints -/
+
+theorem varint_roundtrip (k n : Nat) (h : n < 128 ^ (k+1)) (rest : Bytes) :
+    decVarint (k+1) (encVarint n ++ rest) = .ok (n, rest) := Kio.varint_roundtrip k n h rest
+
+/-- at most 5 bytes iff `n < 2^35`, at most 10 iff `n < 2^70` (`k = 4`, `k = 9`) -/
+theorem varint_length_le (k n : Nat) : (encVarint n).length ≤ k + 1 ↔ n < 128 ^ (k+1) :=
+  Kio.varint_length_le k n
+
+/-- minimal length: no trailing zero group -/
+theorem varint_minimal (n : Nat) : (encVarint n).getLast? ≠ some 0 ∨ encVarint n = [0] :=
+  Kio.varint_minimal n
+
+theorem varint_prefix_underflow (k n : Nat) (h : n < 128 ^ (k+1)) (j : Nat)
+    (hj : j < (encVarint n).length) : decVarint (k+1) ((encVarint n).take j) = .error .underflow :=
+  Kio.varint_prefix_underflow k n h j hj
+
+/-- a `k`-th byte with the continuation bit set is rejected with `ValueError` -/
+theorem varint_too_long (k : Nat) (bs : Bytes) (h : k ≤ bs.length)
+    (hc : ∀ b ∈ bs.take k, 128 ≤ b.toNat) : decVarint k bs = .error .valueError :=
+  Kio.varint_too_long k bs h hc
+
+theorem encVarint_eq_spec (n : Nat) : encVarint n = Spec.uvarint n := Kio.encVarint_eq_spec n
+
+/-! ## zig-zag -/
+
+theorem zigzag_dec_enc (v : Int) : zigzagDec (zigzagEnc v) = v := Kio.zigzag_dec_enc v
+theorem zigzag_enc_dec (n : Nat) : zigzagEnc (zigzagDec n) = n := Kio.zigzag_enc_dec n
+/-- `i32` maps into `[0, 2^32)` and `i64` into `[0, 2^64)` -/
+theorem zigzag_range32 (v : Int) (h : -(2 ^ 31 : Int) ≤ v ∧ v < 2 ^ 31) : zigzagEnc v < 2 ^ 32 :=
+  Kio.zigzag_range 31 v h
+theorem zigzag_range64 (v : Int) (h : -(2 ^ 63 : Int) ≤ v ∧ v < 2 ^ 63) : zigzagEnc v < 2 ^ 64 :=
+  Kio.zigzag_range 63 v h
+
+theorem signed_varint_roundtrip (v : Int) (h : -(2 ^ 31 : Int) ≤ v ∧ v < 2 ^ 31) (bs rest : Bytes)
+    (he : writeSignedVarint (.int v) = .ok bs) : readSignedVarint (bs ++ rest) = .ok (.int v, rest) := by
+  simp only [writeSignedVarint, writeSignedVar, Value.asInt?] at he
+  split at he
+  · injection he with he; subst he
+    have hz := Kio.zigzag_range 31 v h
+    unfold readSignedVarint
+    rw [Kio.varint_roundtrip 4 _ (by rw [Kio.pow128_5]; omega)]
+    simp [bind, Except.bind, pure, Except.pure, Kio.zigzag_dec_enc]
+  · contradiction
+
+theorem signed_varlong_roundtrip (v : Int) (h : -(2 ^ 63 : Int) ≤ v ∧ v < 2 ^ 63) (bs rest : Bytes)
+    (he : writeSignedVarlong (.int v) = .ok bs) : readSignedVarlong (bs ++ rest) = .ok (.int v, rest) := by
+  simp only [writeSignedVarlong, writeSignedVar, Value.asInt?] at he
+  split at he
+  · injection he with he; subst he
+    have hz := Kio.zigzag_range 63 v h
+    unfold readSignedVarlong
+    have h70 : (128 : Nat) ^ (9 + 1) = 2 ^ 70 := by decide
+    rw [Kio.varint_roundtrip 9 _ (by rw [h70]; omega)]
+    simp [bind, Except.bind, pure, Except.pure, Kio.zigzag_dec_enc]
+  · contradiction
+
+/-! ## the remaining primitives -/
+
+theorem boolean_roundtrip (b : Bool) (bs rest : Bytes) (h : writeBoolean (.bool b) = .ok bs) :
+    readBoolean (bs ++ rest) = .ok (.bool b, rest) := Kio.boolean_roundtrip b bs rest h
+
+theorem float64_roundtrip (b : Nat) (hb : b < 2 ^ 64) (bs rest : Bytes)
+    (h : writeFloat64 (.float b) = .ok bs) : readFloat64 (bs ++ rest) = .ok (.float b, rest) :=
+  Kio.float64_roundtrip b hb bs rest h
+
+theorem uuid_roundtrip (v : Value) (hv : v = .none ∨ ∃ b, v = .uuid b ∧ b.length = 16 ∧ b ≠ uuidZero)
+    (bs rest : Bytes) (h : writeUuid v = .ok bs) : readUuid (bs ++ rest) = .ok (v, rest) :=
+  Kio.uuid_roundtrip v hv bs rest h
+
+theorem error_code_roundtrip (codes : List Int) (i : Int) (hi : codes.contains i = true)
+    (bs rest : Bytes) (h : writeErrorCode (.int i) = .ok bs) :
+    readErrorCode codes (bs ++ rest) = .ok (.int i, rest) := Kio.errorCode_roundtrip codes i hi bs rest h
+
+theorem compact_string_roundtrip (p : Bytes) (hp : validUtf8 p = true) (bs rest : Bytes)
+    (h : writeCompactString (.str p) = .ok bs) :
+    readCompactString (bs ++ rest) = .ok (.str p, rest)
+      ∧ readCompactStringNullable (bs ++ rest) = .ok (.str p, rest) :=
+  ⟨Kio.compactString_roundtrip false p hp bs rest h, Kio.compactString_roundtrip true p hp bs rest h⟩
+
+theorem compact_bytes_roundtrip (p : Bytes) (bs rest : Bytes)
+    (h : writeCompactString (.bytes p) = .ok bs) :
+    readCompactStringAsBytes (bs ++ rest) = .ok (.bytes p, rest)
+      ∧ readCompactStringAsBytesNullable (bs ++ rest) = .ok (.bytes p, rest) :=
+  ⟨Kio.compactBytes_roundtrip false p bs rest h, Kio.compactBytes_roundtrip true p bs rest h⟩
+
+theorem legacy_string_roundtrip (p : Bytes) (hp : validUtf8 p = true) (bs rest : Bytes)
+    (h : writeLegacyString (.str p) = .ok bs) :
+    readLegacyString (bs ++ rest) = .ok (.str p, rest)
+      ∧ readNullableLegacyString (bs ++ rest) = .ok (.str p, rest) :=
+  ⟨Kio.legacyString_roundtrip false p hp bs rest h, Kio.legacyString_roundtrip true p hp bs rest h⟩
+
+theorem legacy_bytes_roundtrip (p : Bytes) (bs rest : Bytes)
+    (h : writeLegacyBytes (.bytes p) = .ok bs) :
+    readLegacyBytes (bs ++ rest) = .ok (.bytes p, rest)
+      ∧ readNullableLegacyBytes (bs ++ rest) = .ok (.bytes p, rest) :=
+  ⟨Kio.legacyBytes_roundtrip false p bs rest h, Kio.legacyBytes_roundtrip true p bs rest h⟩
+
+/-- a string longer than 32767 bytes makes the legacy writer raise `OutOfBoundValue` -/
+theorem legacy_string_out_of_domain (p : Bytes) (h : 32767 < p.length) :
+    writeNullableLegacyString (.str p) = .error .outOfBound := by
+  simp only [writeNullableLegacyString, intHi]
+  rw [if_neg]; simp; omega
+
+theorem legacy_bytes_out_of_domain (p : Bytes) (h : 2147483647 < p.length) :
+    writeNullableLegacyBytes (.bytes p) = .error .outOfBound := by
+  simp only [writeNullableLegacyBytes, intHi]
+  rw [if_neg]; simp; omega
+
+theorem timedelta_i32_roundtrip (cfg : TimeCfg) (hc : cfg.tdExact = true) (us : Int)
+    (h1000 : us % 1000 = 0) (hr : -86399999913600000000 ≤ us ∧ us ≤ 86399999999999999999)
+    (bs rest : Bytes) (h : writeTimedeltaI32 cfg (.timedelta us) = .ok bs) :
+    readTimedeltaI32 (bs ++ rest) = .ok (.timedelta us, rest) :=
+  Kio.timedelta_roundtrip cfg hc 4 (by omega) us h1000 hr bs rest h
+
+theorem timedelta_i64_roundtrip (cfg : TimeCfg) (hc : cfg.tdExact = true) (us : Int)
+    (h1000 : us % 1000 = 0) (hr : -86399999913600000000 ≤ us ∧ us ≤ 86399999999999999999)
+    (bs rest : Bytes) (h : writeTimedeltaI64 cfg (.timedelta us) = .ok bs) :
+    readTimedeltaI64 (bs ++ rest) = .ok (.timedelta us, rest) :=
+  Kio.timedelta_roundtrip cfg hc 8 (by omega) us h1000 hr bs rest h
+
+/-- timestamps: the writer's float arithmetic is exact on whole milliseconds (`ms_exact`) -/
+theorem datetime_roundtrip (us : Int) (h1000 : us % 1000 = 0) (h0 : 0 ≤ us)
+    (h1 : us ≤ 253402300799999000) (bs rest : Bytes) (h : writeDatetimeI64 (.datetime us) = .ok bs) :
+    readDatetimeI64 TimeCfg.repaired (bs ++ rest) = .ok (.datetime us, rest)
+    ∧ readNullableDatetimeI64 TimeCfg.repaired (bs ++ rest) = .ok (.datetime us, rest) :=
+  Kio.datetime_roundtrip (fun k h0 h1 => ms_exact k (by rw [abs_lt]; constructor <;> omega))
+    us h1000 h0 h1 bs rest h
+
+theorem array_roundtrip (e : Value → Except Err Bytes) (d : Dec Value) (vs : List Value)
+    (h : ∀ v ∈ vs, ∀ bs, e v = .ok bs → ∀ rest, d (bs ++ rest) = .ok (v, rest))
+    (out : Bytes) (he : encMany e vs = .ok out) (rest : Bytes) :
+    decMany d vs.length (out ++ rest) = .ok (vs, rest) := Kio.decMany_encMany' e d vs h out he rest
+
 end Kio.C11
